@@ -449,3 +449,33 @@ func unspill(v ssa.Value) ssa.Value {
 	}
 	return v
 }
+
+// returnedValues lists, per result index, the values a function may return,
+// looking through defer-spilled result cells (all values stored to the cell).
+func returnedValues(fn *ssa.Function, idx int) []ssa.Value {
+	var out []ssa.Value
+	seen := map[ssa.Value]bool{}
+	add := func(v ssa.Value) {
+		if !seen[v] {
+			seen[v] = true
+			out = append(out, v)
+		}
+	}
+	allInstrs(fn, func(in ssa.Instruction) {
+		ret, ok := in.(*ssa.Return)
+		if !ok || in.Block() == fn.Recover || idx >= len(ret.Results) {
+			return
+		}
+		v := ret.Results[idx]
+		if u, ok := v.(*ssa.UnOp); ok && u.Op == token.MUL {
+			if a, ok := u.X.(*ssa.Alloc); ok {
+				for _, s := range cellSources(a) {
+					add(s)
+				}
+				return
+			}
+		}
+		add(v)
+	})
+	return out
+}
